@@ -5,6 +5,7 @@ import atexit
 import json
 import os
 import shutil
+import sys
 import tempfile
 from collections import Counter
 from pathlib import Path
@@ -42,8 +43,50 @@ def _proj():
         (Path(d) / "tests" / "calc.ts").write_text("export function f(x: number): number {\n  return x * 3600;\n}\n")
         body = triggers.DUP_FILES["dup1.py"].split("\n", 1)[1].replace("total", "amount")
         (Path(d) / "src" / "selfdup.py").write_text("def one(rows):\n" + body + "\n\ndef two(rows):\n" + body)
+        # files without a recognised extension: a licence text, a Python script recognised by its first line, notes
+        (Path(d) / "src" / "LICENSE").write_text("Permission is hereby granted, free of charge, to any person obtaining a copy.\n")
+        (Path(d) / "src" / "notes.txt").write_text("remember 3975 things\n")
+        (Path(d) / "src" / "sub" / "report").write_text("#!/usr/bin/env python3\n" + triggers.T["magic.py"][3].replace("3975", "4907")
+                                                         + "\n\ndef shout(x):\n    print(x)\n")
+        (Path(d) / "src" / "sub" / "setup").write_text("#!/bin/sh\necho 3975\n")
         _P["d"] = Path(d)
     return _P["d"]
+
+
+_FRESH_CODE = ("import sys, json, os\nfrom pathlib import Path\nfrom src.orchestrator.core import Orchestrator\n"
+               "d = Path(sys.argv[1])\nvs = Orchestrator(project_root=d).lint_file(d / sys.argv[2])\n"
+               "print(json.dumps([[v.rule_id, os.path.relpath(str(v.file_path), str(d)), v.line, v.column, v.message.replace(str(d), '<root>')] for v in vs]))\n")
+_FRESH = {}
+
+
+def _fresh_reference(d, files):
+    """What `lint one file` reports in a process that has linted nothing else (a user's single-file run), per file,
+    keyed by project-relative path; computed once per check run and shared between the pool's workers."""
+    import subprocess
+    from concurrent.futures import ThreadPoolExecutor
+    if _FRESH.get("pid") == os.getpid():
+        return _FRESH["ref"]
+    cache = Path(tempfile.gettempdir()) / ("c10-fresh-%d.json" % os.getppid())
+    ref = None
+    if cache.exists():
+        try:
+            ref = json.loads(cache.read_text())
+        except ValueError:
+            ref = None
+    if ref is None:
+        env = dict(os.environ, PYTHONPATH=os.environ.get("VERIF_REPO", "/repo"))
+
+        def one(rel):
+            out = subprocess.run([sys.executable, "-c", _FRESH_CODE, str(d), rel], capture_output=True, text=True, env=env, timeout=120)
+            return rel, json.loads(out.stdout)
+        with ThreadPoolExecutor(6) as ex:
+            ref = dict(ex.map(one, [os.path.relpath(str(f), str(d)) for f in files]))
+        tmp = cache.with_suffix(".%d.tmp" % os.getpid())
+        tmp.write_text(json.dumps(ref))
+        os.replace(tmp, cache)
+        atexit.register(lambda: cache.unlink(missing_ok=True))
+    _FRESH.update(pid=os.getpid(), ref=ref)
+    return ref
 
 
 def _k(v):
@@ -84,6 +127,18 @@ def h_union(ctx):
     ctx.cover("nonempty" if chosen else "empty")
     ctx.require("run-equals-union-of-single-file-runs", got == want, n_files=len(chosen),
                 only_in_run=[list(k)[:3] for k in list(got - want)[:4]], only_single=[list(k)[:3] for k in list(want - got)[:4]])
+    # ... and the union of single-file runs made in processes of their own (state kept per PROCESS cannot hide there)
+    ref = _fresh_reference(d, allf)
+    fresh = Counter()
+    for f in chosen:
+        for rid, rel, line, col, msg in ref[os.path.relpath(str(f), str(d))]:
+            if not rid.startswith(CROSS):
+                fresh[(rid, rel, line, col, msg.replace(str(d), "<root>"))] += 1
+    got_rel = Counter()
+    for (rid, path, line, col, msg), c in got.items():
+        got_rel[(rid, os.path.relpath(str(path), str(d)), line, col, msg.replace(str(d), "<root>"))] += c
+    ctx.require("run-equals-union-of-single-file-runs-in-fresh-processes", got_rel == fresh, n_files=len(chosen),
+                only_in_run=[list(k)[:3] for k in list(got_rel - fresh)[:4]], only_single=[list(k)[:3] for k in list(fresh - got_rel)[:4]])
 
 
 def h_cli_vs_api(ctx):
